@@ -10,20 +10,20 @@ def run(ctx):
     KMAX = 45 if T else 5
     NK = 46 if T else 14
     NM = 4 if T else 3
-    ph = [('pos%d_h%d' % (p, h), [{'pos_i': p, 'handler_i': h}]) for p in range(7) for h in range(5)]
+    ph = [('pos%d_h%d' % (p, h), [{'pos_i': p, 'handler_i': h}]) for p in range(7) for h in range(6)]
     obs = [
-        Ob('builtin_exceptions', 'ob_k0', '', packed=[('pos_i', 7), ('handler_i', 5), ('acc', 3), ('msg_i', NM), ('k', 12 if T else 6)],
+        Ob('builtin_exceptions', 'ob_k0', '', packed=[('pos_i', 7), ('handler_i', 6), ('acc', 3), ('msg_i', NM), ('k', 12 if T else 6)],
            cells=ph, timeout=tmo, per_path=60, confirm='confirm_k0',
            desc='one of %d built-in exception types (x %d messages incl. non-ASCII/NUL/3000 chars, x 3 Accept headers) raised at the selected position of a '
-                'real 3-phase middleware + endpoint + render chain, under 5 error handlers; real boltons ExceptionInfo; then a healthy request, a 404 probe, '
+                'real 3-phase middleware + endpoint + render chain, under 6 error handlers (default, contextual, re-raising, render_error broken, render_error returning another error, render_error raising another HTTPException); real boltons ExceptionInfo; then a healthy request, a 404 probe, '
                 'a 405 probe and a snapshot comparison of the application' % (12 if T else 6, NM)),
-        Ob('http_errors', 'ob_k12', '', packed=[('pos_i', 7), ('handler_i', 5), ('kk', 2), ('acc', 3), ('k', NK)],
+        Ob('http_errors', 'ob_k12', '', packed=[('pos_i', 7), ('handler_i', 6), ('kk', 2), ('acc', 3), ('k', NK)],
            cells=ph, timeout=tmo, per_path=60, confirm='confirm_k12',
            desc='an exported HTTPException class (%d codes incl. 4xx and 5xx) raised or returned at the selected position, 3 Accept headers: its own status, the very '
                 'object, rendered; broken render_error -> default rendering of the same error' % NK),
-        Ob('other_results', 'ob_k345', '', packed=[('pos_i', 7), ('handler_i', 5), ('kk', 3), ('acc', 3), ('k', 6)],
+        Ob('other_results', 'ob_k345', '', packed=[('pos_i', 7), ('handler_i', 6), ('kk', 5), ('acc', 3), ('k', 8)],
            cells=ph, timeout=tmo, per_path=60, twin_fn='tw_k345', twin_pre=[{'pos_i': 5, 'handler_i': 0}], confirm='confirm_k345',
-           desc='non-Response values (str, None, int, dict, list, float), non-breaking errors and early Responses at the selected position'),
+           desc='non-Response values (str, None, int, dict, list, float), non-breaking errors, early Responses, and raised/returned errors whose detail/message/error_type are arbitrary objects, at the selected position'),
     ]
     res = run_obligations('C08', 'harness.c08', obs, ctx.tier)
     res.functions_encoded += ['Application.dispatch', 'ErrorHandler.uncaught_to_response/render_error', 'ContextualErrorHandler.uncaught_to_response',
